@@ -43,6 +43,8 @@ QUICK_JOBS = [
     J("vr32-stereo-ratio-clear", 2, 1, ch=2, q=4, qf=VR, ops="C,P:2000:2,R:1.8:500,P:4000:2,R:1.3:0,P:2000:1,F,K,R:1.5:0,P:1000:1,D"),
     J("cr32-down-3ch-lazy", 96000, 44100, ch=3, q=1, simd=0, ops="Z,I:2.17687,P:5000:2,F,D"),
     J("cr64s-up64-dft-stream", 1, 64, ch=1, q=6, simd=1, ops="C,P:200:2,P:2000:1,F:50000,D"),
+    # equal rates, equal datatypes: the planner ends with no stage at all (the stage array still has its one extra element)
+    J("cr32-passthrough-stereo-clear", 48000, 48000, ch=2, q=4, simd=0, ops="C,P:1000:2,F,K,P:500:1,D"),
 ]
 
 
@@ -83,6 +85,10 @@ def thorough_jobs(rng):
     add(name="lazy-channels", ir=44100, orate=48000, ch=2, q=4, simd=1, ops="Y,N:2,P:2000:2,F,D")
     add(name="lazy-ratio-cr64", ir=3, orate=1, ch=2, q=6, simd=1, ops="Z,I:3,P:9000:2,K,P:100:1,F,D")
     add(name="clear-twice", ir=1, orate=2, ch=2, q=4, simd=0, ops="C,K,K,P:1000:1,F,D")
+    # stage-less and gain-only plans on every engine
+    add(name="passthrough-cr64s", ir=44100, orate=44100, ch=1, q=6, simd=1, ops=CLEAR)
+    add(name="passthrough-lazy-3ch", ir=1, orate=1, ch=3, q=1, simd=1, ops="Z,I:1,P:2000:2,F,D")
+    add(name="passthrough-qq", ir=8000, orate=8000, ch=2, q=0, simd=0, ops=STREAM)
     return jobs
 
 
@@ -579,7 +585,7 @@ def run(ctx):
     known = common.known_active("C20")
     known_sites = set(f.get("signature", {}).get("site") for f in known)
     jobs = thorough_jobs(ctx.rng)
-    if ctx.quick:       # the five fixed jobs and one of the others, chosen by the seed
+    if ctx.quick:       # the fixed jobs and one of the others, chosen by the seed
         jobs = QUICK_JOBS + [ctx.rng.choice(jobs[len(QUICK_JOBS):])]
     variants = ["san", "rel"]
     try:
